@@ -256,7 +256,12 @@ def wl_passive(ctx, pq, rng, shots):
             T, s = M.transmission_matrix(rng, d)
             ins.append({"t": "LossyInterferometer", "m": None, "p": {"matrix": M.enc(T)}})
         elif variant == "distinguishable":
-            ov = float(rng.choice([0.0, 0.3, 0.7, 1.0]))
+            ov = float(rng.choice([0.0, 0.3, 0.6, 0.7, 1.0]))
+            if max(occ) < 2 and d >= 2 and rng.random() < 0.6:
+                # bunched inputs on >= 2 occupied modes: the sector weights of partial distinguishability matter
+                occ = [0] * d
+                occ[0], occ[1] = 2, int(rng.integers(1, 3))
+                ins[0] = {"t": "NumberState", "m": None, "p": {"occupation_numbers": occ}}
             ins[0] = {"t": "DistinguishableNumberState", "m": None, "p": {"occupation_numbers": occ, "particle_overlap": ov}}
             cfg["cutoff"] = sum(occ) + 1
         elif variant == "postselect":
@@ -285,7 +290,8 @@ def wl_passive(ctx, pq, rng, shots):
         ins.append({"t": "ParticleNumberMeasurement", "m": None, "p": {}})
     doc = {"sim": "passive", "d": d, "config": cfg, "ins": ins, "shots": shots}
     cls = "passive|%s|d%d|n%d|%s|%s" % (variant, d, sum(occ), "bunched" if max(occ) > 1 else "spread", G.mode_pattern(modes) if modes else "all")
-    judge_discrete(ctx, pq, doc, law, "passive/" + variant, cls, shots, int(rng.integers(1, 2 ** 31)), arity, "passive-" + variant)
+    # passive sampling is cheap: three times the base number of shots (resolves TV ~0.05 in the quick tier)
+    judge_discrete(ctx, pq, doc, law, "passive/" + variant, cls, shots * 3, int(rng.integers(1, 2 ** 31)), arity, "passive-" + variant)
 
 
 def gaussian_state_doc(rng, d, hbar, small=True):
